@@ -118,6 +118,40 @@ theorem afb1dOne_per_eq_dwt_partial (h x : List R) (hLe : h.length % 2 = 0) (hL 
   congr 1
   exact afbPer_even h x hLe hL hNe hLN
 
+omit [CommRing R] in
+theorem sliceFrom_last [OfNat R 0] (x : List R) (h : 0 < x.length) : sliceFrom x (-1) = [getN x (x.length - 1)] := by
+  unfold sliceFrom pyBound
+  have e : (if (-1:Int) < 0 then (-1:Int) + (x.length:Int) else -1) = (x.length:Int) - 1 := by simp; omega
+  rw [e]
+  have h1 : ¬ ((x.length:Int) - 1 < 0) := by omega
+  have h2 : ¬ ((x.length:Int) < (x.length:Int) - 1) := by omega
+  simp only [h1, h2, if_false]
+  have h3 : ((x.length:Int) - 1).toNat = x.length - 1 := by omega
+  rw [h3]
+  apply List.ext_getElem
+  · simp; omega
+  · intro i h1 h2
+    simp at h1
+    have : i = 0 := by omega
+    subst this
+    simp [getN, List.getD_eq_getElem?_getD, List.getElem?_eq_getElem (by omega : x.length - 1 < x.length)]
+
+/-- periodization for **every** length (odd lengths repeat their last sample first), whenever the even-extended
+length is at least the (even) filter length: exactly the complement of the known finding. -/
+theorem afb1dOne_per_eq_dwt_partial_all (h x : List R) (hLe : h.length % 2 = 0) (hL : 2 ≤ h.length)
+    (hN : 1 ≤ x.length) (hLN : h.length ≤ x.length + x.length % 2) :
+    afb1dOne .periodization h.reverse x = some (Spec.dwt .periodization h x) := by
+  by_cases hpar : x.length % 2 = 0
+  · exact afb1dOne_per_eq_dwt_partial h x hLe hL hpar (by omega)
+  · have hodd : x.length % 2 = 1 := by omega
+    have hg : ¬ (h.length < 2 ∨ x.length < 1) := by omega
+    set x' := x ++ [getN x (x.length - 1)] with hx'
+    have hlen' : x'.length = x.length + 1 := by simp [hx']
+    have key := afbPer_even h x' hLe hL (by omega) (by omega)
+    simp only [afb1dOne, Spec.dwt, hodd, if_true, List.length_reverse]
+    rw [if_neg hg, sliceFrom_last x (by omega)]
+    congr 1
+
 /-- known finding, witnessed on integers: for a length-4 filter on a length-2 signal the code's
 single fold differs from PyWavelets' periodization -/
 example : afb1dOne .periodization ([1, 2, 3, 4] : List Int).reverse [1, 2]
